@@ -34,13 +34,19 @@ type Case struct {
 
 const rule = "cases = histories of up to 30 registrations (literal/func/pattern/command, overlapping patterns, re-registration) interleaved with queries (Match/Minify/MinifyMimetype/Bytes/String) over media type strings with case changes, spaces and parameters; oracle = reference model (literal map, ordered pattern list, split at first ';') with recording stubs that prove which registration served and with which params; distinct by hash of the history; non-trivial = some query in the history had at least two registrations able to serve it"
 
-var types = []string{"text/html", "text/css", "text/x-tmpl", "application/json", "application/ld+json", "image/svg+xml", "text/plain", "TEXT/HTML", "text/*", "*/*", "application/x-javascript", "a/b"}
-var patterns = []string{"^text/", "/x-.*$", "[/+]json$", ".*", "^text/(html|css)$", "xml$", "^application/", "^TEXT/", "/\\*$", "html"}
+var types = []string{"text/html", "text/css", "text/x-tmpl", "application/json", "application/ld+json", "image/svg+xml", "text/plain", "TEXT/HTML", "text/*", "*/*", "application/x-javascript", "a/b", "js", "*", "", "a", "md", "x/", "css"}
+var patterns = []string{"^text/", "/x-.*$", "[/+]json$", ".*", "^text/(html|css)$", "xml$", "^application/", "^TEXT/", "/\\*$", "html", "^[a-z]*$", "^\\*$", "^.?.?$"}
 
 func genQuery(t *rapid.T) string {
 	var sb strings.Builder
 	sb.WriteString(rapid.SampledFrom([]string{"", "", "", " ", "  "}).Draw(t, "lead"))
-	sb.WriteString(rapid.SampledFrom(types).Draw(t, "qtype"))
+	ty := rapid.SampledFrom(types).Draw(t, "qtype")
+	if len(ty) < 3 {
+		// names shorter than any type/subtype can be registered and asked for as they are; the media type syntax
+		// (parameters, padding) is only defined for the longer form
+		return ty
+	}
+	sb.WriteString(ty)
 	np := rapid.IntRange(0, 3).Draw(t, "nparams")
 	if np == 0 && rapid.IntRange(0, 5).Draw(t, "trail") == 0 {
 		sb.WriteString(rapid.SampledFrom([]string{" ", "  "}).Draw(t, "trailsp"))
